@@ -10,13 +10,15 @@ Everything is plain JSON-able data so that a violation can be replayed from its 
 Member type grammar (lists):
   ["b", girname]            basic type (see BASIC)
   ["e", Name]               enumeration / bitfield by value
-  ["a", T, k]               fixed-size array of k elements
+  ["a", T, k]               fixed-size array of k elements  (["a", T, k, 1]: also marked zero-terminated="1")
   ["v", Name]               struct / union / class instance embedded by value
   ["p", Name]               pointer to a struct / union / enum
   ["cb"]                    function-pointer member (<field><callback/></field>)
   ["ct", Name]              member whose type is a named callback typedef
   ["pa", T]                 pointer used as array (<array c:type="T*"> without fixed-size)
   ["gl", which]             GList* / GSList* / GHashTable* / GError* member
+  ["icb"]                   function-pointer member written as a bare <callback> child of the <record> (old scanner
+                            output, still accepted): takes a pointer slot but has no FieldBlob
   ["ps", girname]           pointer to a scalar  T *m  (<type name="guint8" c:type="guint8*"/>)
   ["xv", "Ns.Name", CName]  record/union of an included namespace embedded by value (CName: its C declaration)
   ["za", T]                 zero-terminated C array, a pointer (<array c:type="T*"> e.g. gchar**)
@@ -116,7 +118,7 @@ def type_sa(t, env, c_view=True):
     k = t[0]
     if k == 'b':
         return BASIC[t[1]][1], BASIC[t[1]][2]
-    if k in ('p', 'cb', 'ct', 'pa', 'gl', 'd', 'za', 'ga', 'ps'):
+    if k in ('p', 'cb', 'icb', 'ct', 'pa', 'gl', 'd', 'za', 'ga', 'ps'):
         return 8, 8
     if k == 'al':
         return BASIC[env[t[1]][2]][1], BASIC[env[t[1]][2]][2]
@@ -231,7 +233,7 @@ def c_member(t, name, pfx, local):
         return 'C%s %s' % (_resolve(t[2], pfx, local), name)
     if k == 'a':
         return '%s[%d]' % (c_member(t[1], name, pfx, local), t[2])
-    if k == 'cb':
+    if k in ('cb', 'icb'):
         return 'void (*%s) (int x)' % name
     if k in ('pa', 'za'):
         return c_member(t[1], '*' + name, pfx, local)
@@ -372,7 +374,8 @@ def gir_type(t, pfx, local):
     if k == 'xv':
         return G.I(t[1], t[1].replace('.', ''), byref=0)
     if k == 'a':
-        return G.Arr(gir_type(t[1], pfx, local), fixed_size=t[2], zero_terminated=False)
+        # optional 4th item: zero-terminated="1" together with fixed-size (still exactly t[2] elements in C)
+        return G.Arr(gir_type(t[1], pfx, local), fixed_size=t[2], zero_terminated=bool(len(t) > 3 and t[3]))
     if k == 'pa':
         el = gir_type(t[1], pfx, local)
         return G.Arr(el, zero_terminated=False, ctype=getattr(el, 'ctype', 'gpointer') + '*')
@@ -401,6 +404,8 @@ def gir_field(t, name, pfx, local):
     if k == 'cb':
         cb = G.CallbackT(name, G.Ret(G.B('none')), [G.Param('x', G.B('gint'))])
         return G.FieldN(name, callback=cb, writable=False)
+    if k == 'icb':
+        return G.CallbackT(name, G.Ret(G.B('none')), [G.Param('x', G.B('gint'))])
     if k == 'ni':
         return RawField('<field name="%s" introspectable="0" writable="1"><type c:type="%s"/></field>' % (name, t[1]))
     if k == 'nik':
